@@ -4,7 +4,7 @@ import SamVerif.Props.C12
 namespace SamVerif.Layout
 
 /-- `class A(ConsA(B))`, `class B(NilB, ConsB(A))` (names 0 and 1). -/
-def mutualDefs : Defs := [(0, [[.id 1]]), (1, [[], [.id 0]])]
+def mutualDefs : Defs := [(0, .enum [[.id 1]]), (1, .enum [[], [.id 0]])]
 
 /- Full-strength statement, **false** on the unchanged code:
    `∀ defs roots roots', roots'.Perm roots → ∀ n, layoutOf defs roots' n = layoutOf defs roots n`. -/
@@ -20,10 +20,15 @@ theorem layout_order_independent_counterexample :
       layoutOf defs roots' n ≠ layoutOf defs roots n :=
   ⟨mutualDefs, [0, 1], [1, 0], 1, List.Perm.swap 0 1 [], by decide⟩
 
-example : layoutOf mutualDefs [0, 1] 0 = some [.boxed] ∧
-    layoutOf mutualDefs [0, 1] 1 = some [.int31, .boxed] ∧
-    layoutOf mutualDefs [1, 0] 0 = some [.boxed] ∧
-    layoutOf mutualDefs [1, 0] 1 = some [.int31, .unboxed] := by decide
+example : layoutOf mutualDefs [0, 1] 0 = some (.enumL [.boxed]) ∧
+    layoutOf mutualDefs [0, 1] 1 = some (.enumL [.int31, .boxed]) ∧
+    layoutOf mutualDefs [1, 0] 0 = some (.enumL [.boxed]) ∧
+    layoutOf mutualDefs [1, 0] 1 = some (.enumL [.int31, .unboxed]) := by decide
+
+/-- a struct is a pointer even while it is in progress: `class S(val e: E)`, `class E(None, Some(S))`
+gives `Some` unboxed over `S` in both demand orders. -/
+example : layoutOf [(0, .struct [.id 1]), (1, .enum [[], [.id 0]])] [0] 1 = some (.enumL [.int31, .unboxed]) ∧
+    layoutOf [(0, .struct [.id 1]), (1, .enum [[], [.id 0]])] [1] 1 = some (.enumL [.int31, .unboxed]) := by decide
 
 /-- **layout_sorted_roots_perm_invariant** (/repo 15327a3): the specialisation roots are enumerated
 in module-name order, so the layouts are the same for every iteration order of the module map. -/
